@@ -457,7 +457,17 @@ def s_gcp(draw):
     elif op == "zoom_to":
         P = {"shape": [draw(st.integers(1, 64)), draw(st.integers(1, 64))]}
     probes = [[draw(st.integers(0, 16)) / 16, draw(st.integers(0, 16)) / 16] for _ in range(3)]
-    return {"WH": [W, H], "kind": kind, "pts": pts, "A": coeffs, "klass": klass, "bend": bend, "op": op, "P": P, "probes": probes, "crs": draw(crs_tags())}
+    # a second view-changing step on top of the first (crop/pad of a zoomed box, zoom of a cropped box, ...): the
+    # derived box then carries both a non-unit scale and a non-zero offset relative to the control points' frame
+    op2 = draw(st.sampled_from(["none", "none", "getitem", "pad", "zoom_out"]))
+    P2 = {}
+    if op2 == "getitem":
+        P2 = {"f": sorted([draw(st.integers(0, 7)) / 8, draw(st.integers(1, 8)) / 8]) + sorted([draw(st.integers(0, 7)) / 8, draw(st.integers(1, 8)) / 8])}
+    elif op2 == "pad":
+        P2 = {"px": draw(st.integers(0, 5)), "py": draw(st.integers(0, 5))}
+    elif op2 == "zoom_out":
+        P2 = {"f": draw(st.sampled_from([2, 3, 1.5, 4]))}
+    return {"WH": [W, H], "kind": kind, "pts": pts, "A": coeffs, "klass": klass, "bend": bend, "op": op, "P": P, "op2": op2, "P2": P2, "probes": probes, "crs": draw(crs_tags())}
 
 
 def o_gcp(case, T):
@@ -541,6 +551,33 @@ def o_gcp(case, T):
     require(isinstance(out, GCPGeoBox), "%s returned %r", op, type(out))
     require(tuple(out.shape) == tuple(shape), "%s: shape %r expected %r", op, tuple(out.shape), shape)
     require(out.crs == gb.crs, "%s changed crs", op)
+    op2, P2 = case.get("op2", "none"), case.get("P2") or {}
+    if op2 != "none":
+        h1, w1 = (int(v) for v in out.shape)
+        if op2 == "getitem":
+            fy0, fy1, fx0, fx1 = P2["f"]
+            y0, x0 = int(fy0 * h1), int(fx0 * w1)
+            y1, x1 = max(y0 + 1, int(round(fy1 * h1))), max(x0 + 1, int(round(fx1 * w1)))
+            out2 = out[y0:y1, x0:x1]
+            off2, sc2, shape2 = (x0, y0), (1.0, 1.0), (y1 - y0, x1 - x0)
+        elif op2 == "pad":
+            out2 = out.pad(P2["px"], P2["py"])
+            off2, sc2, shape2 = (-P2["px"], -P2["py"]), (1.0, 1.0), (h1 + 2 * P2["py"], w1 + 2 * P2["px"])
+        else:
+            f2 = P2["f"]
+            out2 = out.zoom_out(f2)
+            off2, sc2, shape2 = (0, 0), (f2, f2), (max(1, math.ceil(h1 / f2)), max(1, math.ceil(w1 / f2)))
+        require(isinstance(out2, GCPGeoBox), "%s then %s returned %r", op, op2, type(out2))
+        require(tuple(out2.shape) == tuple(shape2), "%s then %s: shape %r expected %r", op, op2, tuple(out2.shape), shape2)
+        require(out2.crs == gb.crs, "%s then %s changed crs", op, op2)
+        # contract of the composition: parent pixel = off + sc * (off2 + sc2 * i)
+        off = (off[0] + sc[0] * off2[0], off[1] + sc[1] * off2[1])
+        sc = (sc[0] * sc2[0], sc[1] * sc2[1])
+        out = out2
+        op = op + "+" + op2
+        T.cls("two_step_view")
+        if (sc[0] != 1 or sc[1] != 1) and (off[0] != 0 or off[1] != 0):
+            T.cls("view_with_scale_and_offset")
     oh, ow = out.shape
     for fu, fv in case["probes"]:
         i, j = fu * ow, fv * oh
